@@ -985,6 +985,16 @@ func c16Check(k *kernel.K, exs []*logEx, p *logPass, opt map[string]bool) {
 			// the origin closed inside the body: status, headers and cookies describe the message
 			// (judged above); which part of the body is the content is not stated
 			k.Probe("entry_of_response_cut_short")
+			// ... except that it is part of the body: with no content coding, whatever the entry
+			// holds must be a prefix of the body the origin was sending - message framing (chunk
+			// sizes, line ends) is not content - and its size must be the size of what it holds.
+			if logBody && e.respCE == "" && e.req.Method != "HEAD" {
+				if !bytes.HasPrefix(e.resp.Body, rs.Content.Text) {
+					k.Fail("C16.content", map[string]string{"content_encoding": "", "framing": e.resp.Framing, "fault": "origin_closes_inside_body"}, "%s: the origin closed inside the body; the entry's content (%d bytes, %q...) is not a prefix of the body it was sending", desc, len(rs.Content.Text), clipStr(string(rs.Content.Text), 40))
+				} else if rs.Content.Size != int64(len(rs.Content.Text)) {
+					k.Fail("C16.content", map[string]string{"content_encoding": "", "framing": e.resp.Framing, "fault": "origin_closes_inside_body"}, "%s: the origin closed inside the body; the entry holds %d bytes of content and gives its size as %d", desc, len(rs.Content.Text), rs.Content.Size)
+				}
+			}
 			continue
 		}
 		wantContent := e.respPlain
